@@ -1118,6 +1118,8 @@ struct ClientSide {
     fetches: Arc<AtomicUsize>,
     /// ids under which the page's data is readable
     present: Vec<usize>,
+    /// F-C12-4: the page has a nesting SharedValue whose outer data arrived (initialiser skipped)
+    shifted: bool,
 }
 
 // ------------------------------------------------------------------ real resources on both sides
@@ -1932,11 +1934,24 @@ fn op(c: &mut Case, tags: &HashMap<String, String>, line: &str) -> String {
             sched::run_until_idle(10_000);
             let n = fetches.load(Ordering::SeqCst);
             // the page stays (its pending loads stay parked in the executor table until the case ends)
-            c.client = Some(ClientSide { spy, ctx, owner, keep, fetches, present });
+            let shifted = c.created.iter().any(|cr| match cr {
+                Created::Write(k, true) => {
+                    let w = &c.writes[*k];
+                    w.nested && w.variant == Variant::Shared && w.reg && present.contains(&w.id)
+                }
+                _ => false,
+            });
+            c.client = Some(ClientSide { spy, ctx, owner, keep, fetches, present, shifted });
             format!(
                 "hydrate {} fetches={n} ## {}",
                 show_list(shown),
-                if bad { "fail client-value" } else { "ok" }
+                if !bad {
+                    "ok"
+                } else if shifted {
+                    "fail nested-sharedvalue-id-shift"
+                } else {
+                    "fail client-value"
+                }
             )
         }
         ["client", moment @ ("post" | "csr"), kind, variant, rest @ ..] => {
@@ -1966,7 +1981,7 @@ fn op(c: &mut Case, tags: &HashMap<String, String>, line: &str) -> String {
                 });
                 let ctx: Arc<dyn SharedContext + Send + Sync> = Arc::clone(&spy) as Arc<dyn SharedContext + Send + Sync>;
                 let owner = Owner::new_root(Some(Arc::clone(&ctx)));
-                csr_side = ClientSide { spy, ctx, owner, keep: vec![], fetches: Arc::new(AtomicUsize::new(0)), present: vec![] };
+                csr_side = ClientSide { spy, ctx, owner, keep: vec![], fetches: Arc::new(AtomicUsize::new(0)), present: vec![], shifted: false };
                 &mut csr_side
             };
             let log_from = side.spy.log.lock().unwrap().len();
@@ -1981,7 +1996,9 @@ fn op(c: &mut Case, tags: &HashMap<String, String>, line: &str) -> String {
             // and (unless it is the bare next_id/read_data pair) its own loader / initialiser runs
             let read_transferred =
                 evs.iter().any(|e| matches!(e, CEv::Read(i) if side.present.contains(i)));
-            let verdict = if st != Status::None || read_transferred {
+            let verdict = if (st != Status::None || read_transferred) && side.shifted {
+                "fail nested-sharedvalue-id-shift"
+            } else if st != Status::None || read_transferred {
                 "fail late-carrier-reads-transferred-data"
             } else if variant != Variant::Direct && loads != 1 {
                 "fail late-carrier-does-not-load"
@@ -2464,7 +2481,7 @@ fn permutations(n: usize) -> Vec<Vec<usize>> {
 /// page (so that data read under a stale id would decode), with any carrier.
 fn late_client_ops(setup: &[String], r: &mut Rng) -> Vec<String> {
     if setup.iter().any(|l| l.starts_with("write ") && l.split_whitespace().nth(2) == Some("svn")) {
-        return vec![]; // see the generator's note on `svn`
+        return vec![]; // a carrier created after hydration on such a page draws the inner id: F-C12-4 (generated separately)
     }
     let writes: Vec<Vec<&str>> = setup
         .iter()
@@ -2644,6 +2661,35 @@ fn gen(seed: u64, n: usize, path: &str) -> std::io::Result<()> {
                 emit(&mut f, &l)?;
                 produced += 1;
             }
+            5 if r.chance(1, 6) => {
+                // known finding F-C12-4 (class nested-sharedvalue-id-shift): a page on which a nesting
+                // SharedValue is followed by more carriers (all with the string codec, see above)
+                let mut setup = vec!["ctx new".to_string()];
+                let n = r.range(2, 4);
+                let pos = r.below(n - 1);
+                let mut pending = vec![];
+                for k in 0..n {
+                    let carrier = if k == pos { "svn" } else { *r.pick(&["d", "ar", "r", "ao", "o", "sv", "arb", "ob"]) };
+                    if carrier != "sv" && carrier != "svn" {
+                        // write indices: the inner value of the `svn` takes one
+                        pending.push(if k > pos { k + 1 } else { k });
+                    }
+                    setup.push(format!("write str {carrier} {}", hex(gen_string(&mut r, 5).as_bytes())));
+                }
+                for i in (1..pending.len()).rev() {
+                    pending.swap(i, r.below(i + 1));
+                }
+                let mut l = if r.chance(1, 4) {
+                    consume_ops(&setup, &pending, &mut r)
+                } else {
+                    session_ops(&setup, n, &pending, &mut r, &[])
+                };
+                if r.chance(1, 2) {
+                    l.push(format!("client post str {} {}", r.pick(&["ao", "ar", "sv", "d"]), hex(gen_string(&mut r, 4).as_bytes())));
+                }
+                emit(&mut f, &l)?;
+                produced += 1;
+            }
             _ => {
                 // a streaming session
                 let islands = r.chance(1, 5);
@@ -2688,9 +2734,11 @@ fn gen(seed: u64, n: usize, path: &str) -> std::io::Result<()> {
                     }
                     let mut w = gen_write(&mut r, safe);
                     if k + 1 == nv && hyd && r.chance(1, 5) {
-                        // a SharedValue whose initialiser creates another one — as the page's last
-                        // carrier: a client that finds the outer value never runs the initialiser, so
-                        // it never draws the inner id (HEAD behaviour; later ids would shift)
+                        // a SharedValue whose initialiser creates another one, as the page's last carrier.
+                        // (Followed by more carriers it is the known finding F-C12-4: a client that finds
+                        // the outer value skips the initialiser, never draws the inner id, and every later
+                        // id is one too small — generated separately below, with string-codec carriers only,
+                        // because what a foreign value decodes to under JSON / rkyv is not modelled.)
                         let mut parts: Vec<&str> = w.split_whitespace().collect();
                         parts[1] = "svn";
                         w = parts.join(" ");
